@@ -138,6 +138,8 @@ type obs struct {
 	results   []string
 	errv      string
 	ev        []event
+	ctxLimit  uint64 // hard cpu limit of the context CallContext returned
+	leaked    bool   // after CallContext returned the runtime was not back in its root context
 }
 
 func (o *obs) evStrings() []string {
@@ -215,6 +217,8 @@ func (m *machine) call(f rt.Value, args []rt.Value, def rt.RuntimeContextDef) (o
 	})
 	u := ctx.UsedResources()
 	o.used, o.usedMem = u.Cpu, u.Memory
+	o.ctxLimit = ctx.HardLimits().Cpu
+	o.leaked = !isNilCtx(r.RuntimeContext().Parent())
 	o.ctxStatus = ctx.Status().String()
 	if _, ok := err.(rt.ContextTerminationError); ok {
 		o.termErr = true
